@@ -49,7 +49,7 @@ ANCHORS = [
                           "min_goodness)", 1)}),
 ]
 CLASSES = ["orth", "ordered", "arbitrary_rde", "tiny", "multi", "feedback",
-           "big"]
+           "big", "nested"]
 
 
 def plan(tier):
@@ -57,6 +57,7 @@ def plan(tier):
     p = [(c, n) for c in CLASSES[:5]]
     p.append(("feedback", n // 2))
     p.append(("big", 40 if tier == "quick" else 1500))
+    p.append(("nested", 40000 if tier == "quick" else 1200000))
     return p
 
 
@@ -93,7 +94,63 @@ def gen_sources(rng, route):
                   key=repr)
 
 
+def gen_nested(rng):
+    """Densely overlapping generality-ordered tables over few key bits: most
+    entries are specific, a share of them are *generalisations of entries
+    already in the table* (one or two of their bits turned into X) that
+    mostly keep the route of the entry they were derived from but come from
+    other directions - what the tables of chips where branches of one net
+    (or of nets sharing a key prefix) meet look like.  Few routes, so that
+    candidate merges are large and meet foreign entries on their way down."""
+    k = rng.randint(3, 6)
+    pos = sorted(rng.sample(range(32), k))
+    active = spread((1 << k) - 1, pos)
+    fixed_mask = (rng.getrandbits(32) & ~active) if rng.random() < .5 else 0
+    fixed_key = rng.getrandbits(32) & fixed_mask
+    pool = [sorted(rng.sample(range(24), rng.randint(1, 2)))
+            for _ in range(rng.randint(2, 3))]
+    if rng.random() < .3:
+        pool.append([rng.randrange(6)])
+    weights = [rng.choice([1, 1, 3]) for _ in pool]
+    care = rng.choice([.6, .75, .9])
+    if rng.random() < .5:
+        # one route dominates and most entries are fully specified
+        weights = [5] + [1] * (len(pool) - 1)
+        care = rng.choice([.9, 1.0])
+    raw = []
+    for _ in range(rng.randint(4, 14)):
+        if raw and rng.random() < .35:
+            r, key, mask = rng.choice(raw)[:3]
+            for _ in range(rng.randint(1, 2)):
+                b = 1 << rng.randrange(k)
+                key &= ~b
+                mask &= ~b
+            if rng.random() < .25:
+                r = rng.choices(pool, weights)[0]
+        else:
+            mask = 0
+            for b in range(k):
+                if rng.random() < care:
+                    mask |= 1 << b
+            key = rng.getrandbits(k) & mask
+            r = rng.choices(pool, weights)[0]
+        raw.append((r, key, mask, gen_sources(rng, r)))
+    seen = set()
+    entries = []
+    for r, key, mask, src in raw:
+        if (key, mask) in seen:
+            continue
+        seen.add((key, mask))
+        entries.append((r, spread(key, pos) | fixed_key,
+                        spread(mask, pos) | fixed_mask, src))
+    rng.shuffle(entries)
+    entries.sort(key=lambda e: bin(~e[1] & ~e[2] & 0xffffffff).count("1"))
+    return dict(pos=pos, fixed_key=fixed_key, entries=entries, mode="ordered")
+
+
 def gen_table(rng, cls, tier):
+    if cls == "nested":
+        return gen_nested(rng)
     if cls == "tiny":
         k = rng.randint(0, 2)
     elif cls == "big":
@@ -154,6 +211,11 @@ def gen(cls, idx, rng, tier):
         if t["mode"] == "orth":
             fns.append("rde_noalias")
     t["calls"] = [(f, targets(rng, n)) for f in fns]
+    if cls == "nested":
+        t["calls"] = [(rng.choice(["oc", "occ", "mt"]), None)]
+        if rng.random() < .3:
+            t["calls"].append((rng.choice(["oc", "mt", "occ_noraise"]),
+                               targets(rng, n)))
     if cls == "feedback":
         # a second table over the same keys whose entries include key/mask
         # pairs that minimising the first one *produced* (tables of chips
